@@ -385,7 +385,20 @@ def revise_model(ctx, W, d, t, kinds=("add_effect", "drop_disjunct")):
         if not spots:
             return None
         i, disj = spots[t.draw(len(spots))]
-        lits = [y for y in disj[1] if y[0] in ("atom", "not")]
+        # (a literal that occurs once in the whole precondition: remove_condition removes the first equal literal it meets
+        # anywhere below the root, so only then is it clear which occurrence the caller's edit removes)
+        def count(x, lit_):
+            if x == lit_:
+                return 1
+            if x[0] in ("and", "or"):
+                return sum(count(y, lit_) for y in x[1])
+            if x[0] == "forall":
+                return count(x[3], lit_)
+            return 0
+        lits = [y for y in disj[1] if y[0] in ("atom", "not") and count(act["pre"], y) == 1
+                and count(act["pre"], ("not", y) if y[0] == "atom" else y[1]) == 0]
+        if not lits:
+            return None
         lit = lits[t.draw(len(lits))]
         import re
         a = lit if lit[0] == "atom" else lit[1]
